@@ -190,6 +190,12 @@ theorem Inv3.rebroadcast {s : AState} (i : Inv3 s) (a : Acct) (r : Bool) (acts :
     · exact i
 
 
+theorem Inv3.expiryRearm {s : AState} (i : Inv3 s) (a : Acct) (acts : List String) :
+    Inv3 (expiryRearm s a acts) := by
+  unfold Pool.C08.expiryRearm; split
+  · exact Inv3.watchExpiration i _
+  · exact i
+
 theorem Inv3.resumeRest {s : AState} (i : Inv3 s) (a : Acct) (r : Bool)
     (h1 : (a.state = .pendingOpen ∨ a.state = .pendingClosed) → ∀ t, a.latestTx = some t → t ∈ wr [] s.trace)
     (h2 : a.state = .pendingOpen → ∃ t, a.latestTx = some t ∧ t.id = a.outpoint.txid) :
@@ -200,7 +206,7 @@ theorem Inv3.resumeRest {s : AState} (i : Inv3 s) (a : Acct) (r : Bool)
   · rename_i acts hacts
     simp only []
     split
-    · exact Inv3.watchers (Inv3.rebroadcast i a r acts hacts h1 h2) _ _
+    · exact Inv3.expiryRearm (Inv3.watchers (Inv3.rebroadcast i a r acts hacts h1 h2) _ _) _ _
     · exact Inv3.rebroadcast i a r acts hacts h1 h2
 
 theorem fundOrLocate_got3 {s s' : AState} {a : Acct} {r1 r2 fee : Bool} {f : Option (Nat × Nat)}
@@ -378,6 +384,7 @@ theorem Inv3.step {s : AState} (i : Inv3 s) (j : Inv1 s) (op : Op) (hop : OpOK s
     · exact i0
     · rename_i a ha
       exact Inv3.resume i0 _ _ _ _ _ (stored_h1 i0 ha) (stored_h2 j0 ha)
+  | flush => exact Inv3.setW i _
   | recover a known =>
     simp only [Pool.C08.step]
     obtain ⟨hr, _, _⟩ := hop
